@@ -340,11 +340,11 @@ func minU64(a, b uint64) uint64 {
 func TestVerif_C36_Exhaustive(t *testing.T) {
 	vk := vkBegin(t, "C36")
 	maxLen := vkN(2, 4)
-	vk.Rule(fmt.Sprintf("3 batches x dilution 3 starting at batch 5; every sequence of <= %d DeleteBeforeFineGrained calls over the 15 identifiers of batches 4..8, each with and without a store/load round-trip after every call; full sign/verify scan and forgery inspection after the last call (prefixes are their own sequences); non-trivial = some identifier old and some later identifier still verifying; distinct by sequence", maxLen))
+	vk.Rule(fmt.Sprintf("3 batches x dilution 3 starting at batch 5; every sequence of <= %d DeleteBeforeFineGrained calls over the 18 identifiers of batches 4..9 (one before, two after the range), each with and without a store/load round-trip after every call; full sign/verify scan and forgery inspection after the last call (prefixes are their own sequences); non-trivial = some identifier old and some later identifier still verifying; distinct by sequence", maxLen))
 	defer c36Quiet()()
 	const start, n, d = 5, 3, 3
 	var ops []c36ID
-	for b := uint64(start - 1); b <= start+n; b++ {
+	for b := uint64(start - 1); b <= start+n+1; b++ {
 		for o := uint64(0); o < d; o++ {
 			ops = append(ops, c36ID{Batch: b, Offset: o})
 		}
@@ -398,5 +398,5 @@ func TestVerif_C36_Exhaustive(t *testing.T) {
 		}
 	}
 	rec(0)
-	vk.Exhaustive(fmt.Sprintf("all DeleteBeforeFineGrained sequences of length <= %d over 15 identifiers on a 3x3 key space (x store/load after every call), split over %d shard(s)", maxLen, vkNShards()))
+	vk.Exhaustive(fmt.Sprintf("all DeleteBeforeFineGrained sequences of length <= %d over 18 identifiers (batches 4..9) on a 3x3 key space (x store/load after every call), split over %d shard(s)", maxLen, vkNShards()))
 }
